@@ -101,4 +101,281 @@ theorem tr_fudge (n : Nat) (g : Env) (x : GV) (h : Heap) :
   | _ => simp [find_fudge, matchProg_fudge, fudgeG]
 
 
+/-! ## loops: `Bindings.Copy`, `Matcher.Match` (copies first), `Matcher.getVariable` -/
+
+theorem find_Copy : findFn matchProg ".Copy" = some matchProg_MCopy := by rfl
+
+theorem heapGet_set_same (H : Heap) (L : Nat) (o o' : MapObj) (h : heapGet H L = some o) :
+    heapGet (heapSet H L o') L = some o' := by
+  unfold heapGet heapSet at *
+  have hl : L < H.length := by
+    rcases Nat.lt_or_ge L H.length with h1 | h1
+    · exact h1
+    · simp [List.getElem?_eq_none h1] at h
+  simp [List.getElem?_set, hl]
+
+theorem heapSet_self (H : Heap) (L : Nat) (o : MapObj) (h : heapGet H L = some o) : heapSet H L o = H := by
+  unfold heapGet heapSet at *
+  have hl : L < H.length := by
+    rcases Nat.lt_or_ge L H.length with h1 | h1
+    · exact h1
+    · simp [List.getElem?_eq_none h1] at h
+  have : H[L] = o := by
+    have := List.getElem?_eq_getElem hl
+    rw [this] at h; exact Option.some.inj h
+  rw [← this]; exact List.set_getElem_self hl
+
+theorem heapSet_set (H : Heap) (L : Nat) (o o' : MapObj) : heapSet (heapSet H L o) L o' = heapSet H L o' := by
+  unfold heapSet; exact List.set_set ..
+
+/-- the body of `Bindings.Copy`'s loop: `acc[k] = v` for every entry, in order -/
+theorem copy_loop (g : Env) (rb : GV) (L : Nat) (ty : String) (items : List (GV × GV)) :
+    ∀ (n : Nat) (done : List (GV × GV)) (H : Heap), heapGet H L = some { ty := ty, kvs := done } →
+    loopR (n + items.length + 8) matchProg g [("acc", .ref L), ("bs", rb)] H "" "k" "v" items
+        [GS.assign false [GL.index (GE.var "acc") (GE.var "k")] [GE.var "v"]]
+      = .ok (.next, [("acc", .ref L), ("bs", rb)],
+             heapSet H L { ty := ty, kvs := items.foldl (fun acc kv => minsert kv.1 kv.2 acc) done }) := by
+  induction items with
+  | nil =>
+    intro n done H hH
+    simp [loopR]
+    exact (heapSet_self H L _ hH).symm
+  | cons it items ih =>
+    intro n done H hH
+    obtain ⟨ik, iv⟩ := it
+    have := ih n (minsert ik iv done) (heapSet H L { ty := ty, kvs := minsert ik iv done }) (heapGet_set_same H L _ _ hH)
+    simp [loopR, hH]
+    rw [show n + (items.length + 1) + 7 = n + items.length + 8 by omega, this, heapSet_set]
+
+/-- the translated `Bindings.Copy`: a new map object with the entries of the receiver (stored one by
+    one, in the receiver's order), the receiver and every other object untouched -/
+theorem tr_Copy (n : Nat) (g : Env) (H : Heap) (a : Nat) (o : MapObj) (ho : heapGet H a = some o) :
+    callFn (n + o.kvs.length + 20) matchProg g ".Copy" (.ref a) [] H =
+      .ok ([.ref H.length], H ++ [{ ty := "Bindings", kvs := o.kvs.foldl (fun acc kv => minsert kv.1 kv.2 acc) [] }]) := by
+  have hget : heapGet (H ++ [{ ty := "Bindings", kvs := [] }]) H.length = some { ty := "Bindings", kvs := [] } := by
+    simp [heapGet]
+  have hloop := copy_loop g (.ref a) H.length "Bindings" o.kvs (n + 8) [] (H ++ [{ ty := "Bindings", kvs := [] }]) hget
+  have hitems : rangeItems (H ++ [{ ty := "Bindings", kvs := [] }]) (.ref a) = some o.kvs := by
+    have : heapGet (H ++ [{ ty := "Bindings", kvs := [] }]) a = some o := by
+      unfold heapGet at *
+      rw [List.getElem?_append_left]; exact ho
+      rcases Nat.lt_or_ge a H.length with h1 | h1
+      · exact h1
+      · simp [List.getElem?_eq_none h1] at ho
+    simp [rangeItems, this]
+  rw [show n + o.kvs.length + 20 = (n + o.kvs.length + 19) + 1 from rfl]
+  simp only [callFn, find_Copy]
+  simp [-callFn, matchProg_MCopy, hitems]
+  rw [show n + o.kvs.length + 16 = n + 8 + o.kvs.length + 8 by omega, hloop]
+  simp [heapSet]
+
+/-- `Copy` of the nil map (no bindings given): a new, empty map — never nil -/
+theorem tr_Copy_nil (n : Nat) (g : Env) (H : Heap) :
+    callFn (n + 20) matchProg g ".Copy" .nil [] H = .ok ([.ref H.length], H ++ [{ ty := "Bindings", kvs := [] }]) := by
+  simp [find_Copy, matchProg_MCopy, rangeItems, loopR]
+
+theorem find_Match : findFn matchProg ".Match" = some matchProg_MMatch := by rfl
+
+/-- the translated `Matcher.Match` is `match` on a copy of the given bindings: the caller's map is
+    not among the arguments of anything that follows -/
+theorem tr_Match_copies_first (n : Nat) (g : Env) (H : Heap) (m p f : GV) (a : Nat) (o : MapObj)
+    (ho : heapGet H a = some o) :
+    callFn (n + o.kvs.length + 30) matchProg g ".Match" m [p, f, .ref a] H =
+      callFn (n + o.kvs.length + 26) matchProg g ".match" m [p, f, .ref H.length]
+        (H ++ [{ ty := "Bindings", kvs := o.kvs.foldl (fun acc kv => minsert kv.1 kv.2 acc) [] }]) := by
+  have hc := tr_Copy (n + 1) g H a o ho
+  conv =>
+    lhs
+    rw [show n + o.kvs.length + 30 = (n + o.kvs.length + 29) + 1 from rfl]
+    simp only [callFn, find_Match]
+  simp [-callFn, matchProg_MMatch]
+  rw [show n + o.kvs.length + 21 = n + 1 + o.kvs.length + 20 by omega, hc]
+  simp only []
+  cases callFn (n + o.kvs.length + 26) matchProg g ".match" m [p, f, .ref H.length]
+      (H ++ [{ ty := "Bindings", kvs := o.kvs.foldl (fun acc kv => minsert kv.1 kv.2 acc) [] }]) with
+  | error e => rfl
+  | ok r => obtain ⟨vs, h1⟩ := r; rfl
+
+
+theorem find_getVariable : findFn matchProg ".getVariable" = some matchProg_MgetVariable := by rfl
+
+/-- `getVariable` over the interpreter's values: the first variable (`""` = none yet) and the
+    non-variables in order; a second variable is an error -/
+def getVarG : List GV → String → List GV → Except String (String × List GV)
+  | [], v, acc => .ok (v, acc)
+  | .str s :: xs, v, acc =>
+    if isVar s then
+      if v = "" then getVarG xs s acc
+      else if v = s then .error "repeated variables not supported"
+      else .error "multiple variables not supported here"
+    else getVarG xs v (acc ++ [.str s])
+  | x :: xs, v, acc => getVarG xs v (acc ++ [x])
+
+/-- the loop body of `getVariable`, taken from the regenerated declaration -/
+def gvBody : List GS :=
+  match matchProg_MgetVariable.body with
+  | [_, _, GS.range _ _ _ _ body, _] => body
+  | _ => []
+
+theorem gv_shape : matchProg_MgetVariable.body =
+    [GS.varDecl ["v"] (GV.str ""),
+     GS.assign true [GL.var "acc"] [GE.call "makeslice" [GE.lit (GV.str "[]interface{}"), GE.lit (GV.int 0)]],
+     GS.range "" "_" "x" (GE.var "xs") gvBody,
+     GS.ret [GE.var "v", GE.var "acc", GE.lit GV.nil]] := by rfl
+
+theorem typeOf_str_iff (H : Heap) (x : GV) : typeOf H x = GT.str ↔ ∃ s, x = .str s := by
+  cases x with
+  | ref a => cases hh : heapGet H a <;> simp [typeOf, hh]
+  | _ => simp [typeOf]
+
+theorem getVarG_nonstr (x : GV) (xs : List GV) (v : String) (acc : List GV) (hx : ¬ ∃ s, x = .str s) :
+    getVarG (x :: xs) v acc = getVarG xs v (acc ++ [x]) := by
+  cases x with
+  | str s => exact absurd ⟨s, rfl⟩ hx
+  | _ => simp [getVarG]
+
+theorem gv_loop (g : Env) (m xs0 : GV) (H : Heap) : ∀ (items : List (GV × GV)) (n : Nat) (v : String) (acc : List GV),
+    (match getVarG (items.map (·.2)) v acc with
+     | .ok (v', acc') =>
+        loopR (n + items.length + 40) matchProg g [("acc", .slice acc), ("v", .str v), ("m", m), ("xs", xs0)] H "" "_" "x" items gvBody
+          = .ok (.next, [("acc", .slice acc'), ("v", .str v'), ("m", m), ("xs", xs0)], H)
+     | .error e =>
+        ∃ env', loopR (n + items.length + 40) matchProg g [("acc", .slice acc), ("v", .str v), ("m", m), ("xs", xs0)] H "" "_" "x" items gvBody
+          = .ok (.ret [.str "", .nil, .err e], env', H)) := by
+  intro items
+  induction items with
+  | nil => intro n v acc; simp [getVarG, loopR]
+  | cons it items ih =>
+    intro n v acc
+    obtain ⟨ik, iv⟩ := it
+    by_cases hstr : ∃ s, iv = .str s
+    · obtain ⟨s, rfl⟩ := hstr
+      have hcall : ∀ k, callFn (n + items.length + 10 + k) matchProg g ".IsVariable" m [.str s] H = .ok ([.bool (isVar s)], H) := by
+        intro k
+        rw [show n + items.length + 10 + k = (n + items.length + k) + 10 by omega]
+        exact tr_IsVariable _ g m s H
+      by_cases hv : isVar s = true
+      · by_cases hve : v = ""
+        · -- the first variable: remembered, the element is skipped
+          subst hve
+          have hi := ih n s acc
+          simp only [gvBody, matchProg_MgetVariable] at hi
+          simp only [List.map, getVarG, hv, if_true]
+          revert hi
+          cases getVarG (items.map (·.2)) s acc with
+          | ok r =>
+            obtain ⟨v', acc'⟩ := r
+            intro hi
+            dsimp only at hi
+            simp [-callFn, loopR, gvBody, matchProg_MgetVariable, sliceElems]
+            rw [show n + (items.length + 1) + 30 = n + items.length + 10 + 21 by omega, hcall 21]
+            simp [loopR, sliceElems, hv]
+            rw [show n + (items.length + 1) + 39 = n + items.length + 40 by omega]
+            exact hi
+          | error e =>
+            intro hi
+            obtain ⟨env', hi⟩ := hi
+            refine ⟨env', ?_⟩
+            simp [-callFn, loopR, gvBody, matchProg_MgetVariable, sliceElems]
+            rw [show n + (items.length + 1) + 30 = n + items.length + 10 + 21 by omega, hcall 21]
+            simp [loopR, sliceElems, hv]
+            rw [show n + (items.length + 1) + 39 = n + items.length + 40 by omega]
+            exact hi
+        · by_cases hvs : v = s
+          · subst hvs
+            simp only [List.map, getVarG, hv, hve, if_true, if_false]
+            refine ⟨[("acc", .slice acc), ("v", .str v), ("m", m), ("xs", xs0)], ?_⟩
+            simp [-callFn, loopR, gvBody, matchProg_MgetVariable, sliceElems]
+            rw [show n + (items.length + 1) + 30 = n + items.length + 10 + 21 by omega, hcall 21]
+            simp [loopR, sliceElems, hv, hve]
+          · simp only [List.map, getVarG, hv, hve, hvs, if_true, if_false]
+            refine ⟨[("acc", .slice acc), ("v", .str v), ("m", m), ("xs", xs0)], ?_⟩
+            simp [-callFn, loopR, gvBody, matchProg_MgetVariable, sliceElems]
+            rw [show n + (items.length + 1) + 30 = n + items.length + 10 + 21 by omega, hcall 21]
+            simp [loopR, sliceElems, hv, hve, hvs]
+      · have hv' : isVar s = false := by simpa using hv
+        have hi := ih n v (acc ++ [.str s])
+        simp only [gvBody, matchProg_MgetVariable] at hi
+        simp only [List.map, getVarG, hv']
+        revert hi
+        cases getVarG (items.map (·.2)) v (acc ++ [.str s]) with
+        | ok r =>
+          obtain ⟨v', acc'⟩ := r
+          intro hi
+          dsimp only at hi
+          simp [-callFn, loopR, gvBody, matchProg_MgetVariable, sliceElems]
+          rw [show n + (items.length + 1) + 30 = n + items.length + 10 + 21 by omega, hcall 21]
+          simp [loopR, sliceElems, hv']
+          rw [show n + (items.length + 1) + 39 = n + items.length + 40 by omega]
+          exact hi
+        | error e =>
+          intro hi
+          obtain ⟨env', hi⟩ := hi
+          refine ⟨env', ?_⟩
+          simp [-callFn, loopR, gvBody, matchProg_MgetVariable, sliceElems]
+          rw [show n + (items.length + 1) + 30 = n + items.length + 10 + 21 by omega, hcall 21]
+          simp [loopR, sliceElems, hv']
+          rw [show n + (items.length + 1) + 39 = n + items.length + 40 by omega]
+          exact hi
+    · have hty : ¬ (GT.str = typeOf H iv) := fun h => hstr ((typeOf_str_iff H iv).mp h.symm)
+      have hi := ih n v (acc ++ [iv])
+      simp only [gvBody, matchProg_MgetVariable] at hi
+      simp only [List.map, getVarG_nonstr iv _ v acc hstr]
+      revert hi
+      cases getVarG (items.map (·.2)) v (acc ++ [iv]) with
+      | ok r =>
+        obtain ⟨v', acc'⟩ := r
+        intro hi
+        dsimp only at hi
+        simp [-typeOf, loopR, gvBody, matchProg_MgetVariable, sliceElems, hty]
+        rw [show n + (items.length + 1) + 39 = n + items.length + 40 by omega]
+        exact hi
+      | error e =>
+        intro hi
+        obtain ⟨env', hi⟩ := hi
+        refine ⟨env', ?_⟩
+        simp [-typeOf, loopR, gvBody, matchProg_MgetVariable, sliceElems, hty]
+        rw [show n + (items.length + 1) + 39 = n + items.length + 40 by omega]
+        exact hi
+
+theorem gv_params : matchProg_MgetVariable.params = ["xs"] ∧ matchProg_MgetVariable.recv = "m" ∧
+    matchProg_MgetVariable.variadic = false := ⟨rfl, rfl, rfl⟩
+
+theorem rangeItems_slice_snd (H : Heap) (xs : List GV) :
+    ∃ items, rangeItems H (.slice xs) = some items ∧ items.map (·.2) = xs ∧ items.length = xs.length := by
+  refine ⟨_, rfl, ?_, ?_⟩
+  · simp [List.map_map, Function.comp_def]
+    have := List.map_snd_zip (l₁ := List.range xs.length) (l₂ := xs) (by simp)
+    simpa using this
+  · simp
+
+/-- the translated `Matcher.getVariable` computes `getVarG` — the first variable of a pattern array
+    and its other elements in order, or one of the two errors — and leaves the heap as it is -/
+theorem tr_getVariable (n : Nat) (g : Env) (m : GV) (xs : List GV) (H : Heap) :
+    callFn (n + xs.length + 50) matchProg g ".getVariable" m [.slice xs] H =
+      (match getVarG xs "" [] with
+       | .ok (v, acc) => .ok ([.str v, .slice acc, .nil], H)
+       | .error e => .ok ([.str "", .nil, .err e], H)) := by
+  obtain ⟨items, hitems, hsnd, hlen⟩ := rangeItems_slice_snd H xs
+  have hl := gv_loop g m (.slice xs) H items (n + 5) "" []
+  rw [hsnd] at hl
+  rw [show n + xs.length + 50 = (n + xs.length + 49) + 1 from rfl]
+  simp only [callFn, find_getVariable]
+  simp only [gv_shape]
+  revert hl
+  cases getVarG xs "" [] with
+  | ok r =>
+    obtain ⟨v, acc⟩ := r
+    intro hl
+    dsimp only at hl
+    simp [-callFn, hitems, gv_params.1, gv_params.2.1, gv_params.2.2]
+    rw [show n + xs.length + 45 = n + 5 + items.length + 40 by omega, hl]
+    simp
+  | error e =>
+    intro hl
+    obtain ⟨env', hl⟩ := hl
+    simp [-callFn, hitems, gv_params.1, gv_params.2.1, gv_params.2.2]
+    rw [show n + xs.length + 45 = n + 5 + items.length + 40 by omega, hl]
+
+
 end Sheens.TrMatch
